@@ -299,6 +299,11 @@ def tree_equal(a, b, path=''):
             fx, fy = float(x), float(y)
             if fx == fy or (fx != fx and fy != fy):
                 return None
+            try:
+                if f32_round(fx) == f32_round(fy):
+                    return None
+            except OverflowError:
+                pass
             return '%s: %r vs %r' % (path, x, y)
         return None if x == y else '%s: %r vs %r' % (path, x, y)
     if a[0] in ('bool', 'str'):
